@@ -1,0 +1,120 @@
+//! Verification hooks (only compiled with the `verif-hooks` feature).
+//!
+//! Provides a thread-local interception point for LP calls: every call of
+//! [`Polytope::solve_linprog`] is logged together with the answer of the real
+//! solver, and an optional fault plan can replace the answer of selected calls.
+
+use std::cell::RefCell;
+use std::collections::HashMap;
+
+use ndarray::{Array1, Array2};
+
+use crate::linalg::affine::Polytope;
+use crate::linalg::polyhedron::PolytopeStatus;
+
+/// Replacement behaviour of the LP backend for a single call.
+#[derive(Clone, Debug, PartialEq)]
+pub enum LpFault {
+    /// report a solver error
+    Error,
+    /// report an unbounded objective
+    Unbounded,
+    /// return the real optimal point shifted by the given amount in every coordinate
+    Perturb(f64),
+    /// return an "optimal" point far away from the polytope (also when the real answer is not optimal)
+    FarOff,
+}
+
+/// One intercepted LP call.
+#[derive(Clone, Debug)]
+pub struct LpRecord {
+    pub mat: Array2<f64>,
+    pub bias: Array1<f64>,
+    pub coeffs: Array1<f64>,
+    /// answer of the real solver
+    pub real: PolytopeStatus,
+    /// answer handed to the caller (differs from `real` only under a fault plan)
+    pub returned: PolytopeStatus,
+}
+
+#[derive(Default)]
+struct HookState {
+    active: bool,
+    inside: bool,
+    calls: usize,
+    log: Vec<LpRecord>,
+    plan: HashMap<usize, LpFault>,
+}
+
+thread_local! {
+    static STATE: RefCell<HookState> = RefCell::new(HookState::default());
+}
+
+/// Starts logging LP calls on this thread with the given fault plan (call number, starting at 0, to fault).
+pub fn start(plan: HashMap<usize, LpFault>) {
+    STATE.with(|st| {
+        let mut st = st.borrow_mut();
+        st.active = true;
+        st.inside = false;
+        st.calls = 0;
+        st.log.clear();
+        st.plan = plan;
+    });
+}
+
+/// Stops logging and returns the calls seen since [`start`].
+pub fn stop() -> Vec<LpRecord> {
+    STATE.with(|st| {
+        let mut st = st.borrow_mut();
+        st.active = false;
+        st.inside = false;
+        st.plan.clear();
+        std::mem::take(&mut st.log)
+    })
+}
+
+/// Called at the top of `Polytope::solve_linprog`.
+pub(crate) fn intercept(poly: &Polytope, coeffs: &Array1<f64>) -> Option<PolytopeStatus> {
+    let proceed = STATE.with(|st| {
+        let mut st = st.borrow_mut();
+        if !st.active || st.inside {
+            false
+        } else {
+            st.inside = true;
+            true
+        }
+    });
+    if !proceed {
+        return None;
+    }
+
+    let real = poly.solve_linprog(coeffs.clone(), false);
+
+    let returned = STATE.with(|st| {
+        let mut st = st.borrow_mut();
+        st.inside = false;
+        let no = st.calls;
+        st.calls += 1;
+        let returned = match st.plan.get(&no) {
+            None => real.clone(),
+            Some(LpFault::Error) => PolytopeStatus::Error("injected fault".to_string()),
+            Some(LpFault::Unbounded) => PolytopeStatus::Unbounded,
+            Some(LpFault::Perturb(delta)) => match &real {
+                PolytopeStatus::Optimal(point) => PolytopeStatus::Optimal(point + *delta),
+                other => other.clone(),
+            },
+            Some(LpFault::FarOff) => {
+                PolytopeStatus::Optimal(Array1::from_elem(coeffs.len(), 1.0e6))
+            }
+        };
+        st.log.push(LpRecord {
+            mat: poly.mat.clone(),
+            bias: poly.bias.clone(),
+            coeffs: coeffs.clone(),
+            real,
+            returned: returned.clone(),
+        });
+        returned
+    });
+    Some(returned)
+}
